@@ -7,7 +7,8 @@ import os, re, json, zlib, subprocess, itertools
 from concurrent.futures import ThreadPoolExecutor
 import vlib
 
-NDB = 3                   # real databases 0..2; 3..5 are the metadata of database 0..2 seen as a one-key database
+NDB = 3                   # real databases 0..2; 3..5 are the metadata of database 0..2 seen as a one-key database,
+NSLOT = 3 * NDB           # 6..8 the flags of database 0..2 (absent = the database does not exist)
 METAKEY = "00"
 
 
@@ -57,6 +58,11 @@ def a_scenarios(rng=None):
     S["put_slack"] = (base + ["put 0 %s *%d:41" % (k1, big), "put 0 %s *%d:42" % (k1, small)], "put 0 %s *%d:43" % (k1, mid), k1, k1)
     S["put_beyond"] = (base + two, "put 0 %s *%d:43" % (k1, huge), k1, k1)
     S["put_new"] = (base + ["put 0 %s *%d:41" % (j1, small)], "put 0 %s *%d:43" % (k1, mid), k1, k1)
+    # the data block of a node is moved to a larger extent while it already holds pairs (`_kvblk_addkv`, "resize the whole block"):
+    # old extent 2^p bytes; B's first put into the EMPTY database 2 asks the allocator for exactly such an extent (b_ops alloc<p>)
+    for p_, vs in GROW_SIZES.items():
+        v_ = vs if not rng else r(vs, vs + vs // 8)
+        S["put_grow%d" % p_] = (base + ["dbcreate 2", "put 0 %s *%d:41" % (j1, v_)], "put 0 %s *%d:43" % (k1, v_), k1, k1)
     S["put_split"] = (base + fill(nfill), "put 0 %s *20:43" % hx("k%03dx" % pos), hx("k%03dx" % pos), hx("k%03dx" % pos))
     S["put_bigself"] = (base + ["put 0 %s *%d:41" % (k1, small)], "put 0 %s *%d:43" % (k1, 300000 if not rng else r(100000, 900000)), k1, k1)
     S["del_simple"] = (base + two, "del 0 %s" % k1, k1, k1)
@@ -71,6 +77,10 @@ def a_scenarios(rng=None):
     S["setmeta_first"] = (base + two, "setmeta 0 *64:4d", k1, k1)
     S["setmeta_over"] = (base + two + ["setmeta 0 *64:4c"], "setmeta 0 *64:4d", k1, k1)
     S["dbcreate"] = (base + two, "dbcreate 2", k1, k1)
+    # two iwkv_db callers for the same NEW id with different flags: the loser of the race finds the winner's database under the
+    # exclusive lock (round 7: it returned IWKV_ERROR_INCOMPATIBLE_DB_MODE with the store lock held, fixed 107860a)
+    S["dbrace"] = (base + two, "dbopen 2 00", k1, k1)
+    S["dbrace_rev"] = (base + two, "dbopen 2 01", k1, k1)
     S["dbdestroy"] = (base + two + ["dbcreate 2"] + fill(nfill, db=2), "dbdestroy 2", k1, k1)
     S["sync"] = (base + two, "sync", k1, k1)
     S["checkpoint"] = (base + two, "checkpoint", k1, k1)
@@ -81,15 +91,29 @@ def a_scenarios(rng=None):
 
 
 # operations whose log records publish stores into the mapping (the trace comparison with the model applies to them)
-DATA_OPS = ("put", "del", "cset", "cdel", "setmeta", "dbcreate", "dbdestroy")
+DATA_OPS = ("put", "del", "cset", "cdel", "setmeta", "dbcreate", "dbopen", "dbdestroy")
 # scenarios in which the unchanged library writes a log record with no lock held that excludes a remap
 # (_sblk_destroy: `onset` behind release_mmap, notes/conc.md): upper bound of such records per operation
 UNGUARDED_KNOWN = {}    # _sblk_destroy logged behind release_mmap until 5ef9921 (fixed entry in known_findings.json)
 
 
-def b_ops(key, delkey=None):
-    return {"grow": "grow 1 %s" % hx("g"), "get": "get 0 %s" % key, "scan": "scan 0", "put_same": "put 0 %s *30:62" % key,
-            "put_other": "put 0 %s *30:62" % hx("zz"), "del": "del 0 %s" % (delkey or key), "checkpoint": "checkpoint", "sync": "sync"}
+# value sizes whose first record gets a data block of 2^p bytes
+GROW_SIZES = {9: 8, 10: 600, 11: 1500, 12: 3000}
+
+
+def b_ops(key, delkey=None, scen=""):
+    extra = {}
+    if scen.startswith("put_grow"):
+        for p_, vs in GROW_SIZES.items():
+            extra["alloc%d" % p_] = "put 2 %s *%d:6d" % (hx("m"), vs)
+    if scen in ("dbrace", "dbcreate"):
+        extra["dbopen_other"] = "dbopen 2 01"
+    elif scen == "dbrace_rev":
+        extra["dbopen_other"] = "dbopen 2 00"
+    if scen.startswith("dbrace"):
+        extra["dbopen_same"] = "dbopen 2 " + ("00" if scen == "dbrace" else "01")
+    return dict(extra, **{"grow": "grow 1 %s" % hx("g"), "get": "get 0 %s" % key, "scan": "scan 0", "put_same": "put 0 %s *30:62" % key,
+            "put_other": "put 0 %s *30:62" % hx("zz"), "del": "del 0 %s" % (delkey or key), "checkpoint": "checkpoint", "sync": "sync"})
 
 
 def script(path, wal, setup, a, b, kfrom=0, kto=0, post=()):
@@ -137,6 +161,8 @@ def parse_runs(out):
             cur[f[0]][int(f[1])] = f[2]
         elif f[0] == "END":
             cur["ended"] = True
+        elif f[0] == "HELD":
+            cur.setdefault("held", []).append("%s: `%s` returned holding %s" % ("ABP"[int(f[1])] if f[1] in "012" else f[1], f[2], f[3]))
         elif f[0] == "ALLOC":
             cur["alloc"] = int(f[1])
         elif f[0] in ("0", "1", "2") and len(f) >= 8:
@@ -159,10 +185,12 @@ def norm_call(c):
         o.update(kind="put", db=NDB + d, k=METAKEY)
     elif kind == "getmeta":
         o.update(kind="get", db=NDB + d, k=METAKEY)
-    elif kind in ("dbcreate", "backup"):
+    elif kind == "backup":
         o["kind"] = "opendb"
+    elif kind in ("dbcreate", "dbopen"):     # iwkv_db(id, flags): creates, finds, or refuses a database that has other flags
+        o.update(kind="dbopen", fslot=2 * NDB + d, flags="00" if kind == "dbcreate" or o["k"] in ("-", "") else o["k"])
     elif kind == "dbdestroy":
-        o["clear"] = [d, NDB + d]
+        o["clear"] = [d, NDB + d, 2 * NDB + d]
     if o["kind"] == "put" and o["v"] == "-":
         o["v"] = ""
     return o
@@ -190,7 +218,7 @@ def dump_of(state, d):
 def final_of(run, tag):
     """harness dump lines -> the text form C07.linearizable compares (metadata as a one-key database)"""
     out = {}
-    for d in range(2 * NDB):
+    for d in range(NSLOT):
         s = run[tag].get(d)
         if s is None:
             return None
@@ -202,6 +230,9 @@ def judge(C07, run, init, a_line, b_line, npost=0):
     """None or the reason why this execution contradicts the property"""
     if run["bad"]:
         return "the run did not complete: %s" % run["bad"][:2]
+    if run.get("held"):
+        return ("an API call returned to its caller with a lock still held by the calling thread (%s): every later call that needs the lock "
+                "waits for ever" % "; ".join(run["held"]))
     if not run["ended"]:
         return "the run did not complete (no END line)"
     ncalls = 1 + (1 if b_line else 0) + npost
@@ -214,12 +245,12 @@ def judge(C07, run, init, a_line, b_line, npost=0):
     final = final_of(run, "FINAL")
     if final is None:
         return "final dump incomplete"
-    if not C07.linearizable(calls, 2 * NDB, final, init=init):
+    if not C07.linearizable(calls, NSLOT, final, init=init):
         return ("no sequential order of the calls explains the answers and the final contents (B ran at lock release %s of A: %s)"
                 % (run["k"], run.get("bwin")))
     reo = final_of(run, "REOPEN")
     if reo != final:
-        d = [i for i in range(2 * NDB) if reo is None or reo.get(i) != final[i]]
+        d = [i for i in range(NSLOT) if reo is None or reo.get(i) != final[i]]
         return "the store does not reopen to the contents it had before the close (database slots %s differ)" % d
     # states of the run: every order of every subset of the calls
     states = set()
@@ -229,7 +260,7 @@ def judge(C07, run, init, a_line, b_line, npost=0):
             st = init
             for c in perm:
                 st = C07.apply(st, c)[1]
-            states.add(tuple(dump_of(st, d) for d in range(2 * NDB)))
+            states.add(tuple(dump_of(st, d) for d in range(NSLOT)))
     # a scan that ran while the other thread stood still is one atomic read
     if run.get("bwin") in ("done", "none"):
         for c in run["calls"]:
@@ -237,7 +268,7 @@ def judge(C07, run, init, a_line, b_line, npost=0):
                 return "a scan that ran while the other thread was stopped between two critical sections saw a state no order of the calls produces"
     if run["BACKUP"]:
         b = final_of(run, "BACKUP")
-        if b is None or tuple(b[d] for d in range(2 * NDB)) not in states:
+        if b is None or tuple(b[d] for d in range(NSLOT)) not in states:
             return "the backup image is not a state of the run"
     elif a_line.split()[0] == "backup" and run.get("wal") == "1":
         return "no backup image"
@@ -245,7 +276,7 @@ def judge(C07, run, init, a_line, b_line, npost=0):
 
 
 def init_state(C07, setup):
-    st = tuple(() for _ in range(2 * NDB))
+    st = tuple(() for _ in range(NSLOT))
     for s in setup:
         st = C07.apply(st, spec_call(s))[1]
     return st
@@ -310,12 +341,12 @@ def stage(run, C07, work, nrandom, open_findings=False, workers=12, all_b=False)
     for tag_, S in inst:
         for name in sorted(S):
             setup, a, key, dk = S[name]
-            for bn, b in sorted(b_ops(key, dk).items()):
+            for bn, b in sorted(b_ops(key, dk, name).items()):
                 for wal in (0, 1):
                     if name == "backup" and bn == "grow" and wal == 1 and not open_findings:
                         run.dist("preempt: backup x grow skipped (known finding C08-growth-during-main-copy)")
                         continue
-                    if tag_ and not all_b and bn not in ("grow", "put_other", "get"):     # randomised instances: the B operations that get through
+                    if tag_ and not all_b and bn not in ("grow", "put_other", "get", "dbopen_other") and not bn.startswith("alloc"):     # randomised instances: the B operations that get through
                         continue
                     jobs.append({"name": name + tag_, "scen": name, "bn": bn, "wal": wal, "setup": setup, "a": a, "b": b,
                                  "path": os.path.join(work, "pe%d.db" % len(jobs))})
@@ -341,6 +372,15 @@ def stage(run, C07, work, nrandom, open_findings=False, workers=12, all_b=False)
             tidx[len(parsed) - 1] = len(traces)
             traces.append((j["wal"], int(runs[0].get("nrel", "0")), runs[0]["ev"]))
     preds = model_predictions(model, traces) if model and traces else []
+    # lock balance of A's call in every execution, judged by the extracted model (CC/Balance.v trace_balanced) on the recorded events
+    bal = {}
+    if model:
+        keys = [(ji, ri) for ji, (runs, _) in enumerate(parsed) for ri, r in enumerate(runs) if r["ended"] and len(r["ev"]) < 16000]
+        inp = "\n".join("B " + " ".join(parsed[ji][0][ri]["ev"]) for ji, ri in keys) + "\n"
+        p = subprocess.run([model], input=inp.encode(), stdout=subprocess.PIPE, stderr=subprocess.PIPE, timeout=600)
+        outl = p.stdout.decode().split("\n")
+        for n, key in enumerate(keys):
+            bal[key] = outl[n].strip() if n < len(outl) else "?"
 
     nviol = 0
     stale_seen = 0
@@ -372,9 +412,16 @@ def stage(run, C07, work, nrandom, open_findings=False, workers=12, all_b=False)
                 run.broken.append("T2 publication discipline: `%s` (%s) writes %d log record(s) while holding no lock that excludes a remap by "
                                   "another thread (file lock, allocator lock, exclusive store lock); the section model has %d for this operation"
                                   % (j["a"][:50], j["name"], ung, UNGUARDED_KNOWN.get(j["scen"], 0)))
-        for r in runs:
+        for ri, r in enumerate(runs):
             r["wal"] = str(j["wal"])
             bw = r.get("bwin", "?").split(":")[0]
+            mb = bal.get((ji, ri))
+            if mb is not None:
+                a_held = any(h.startswith("A:") for h in r.get("held", []))
+                if mb not in ("0", "1") or (mb == "1") == a_held:
+                    run.broken.append("T2 lock balance: A = `%s`, k = %d: the model says the recorded lock events of the call are %s, the harness "
+                                      "found %s held at its return" % (j["a"][:50], r["k"], {"1": "balanced", "0": "not balanced"}.get(mb, mb),
+                                                                       "a lock" if a_held else "nothing"))
             run.dist("preempt window=" + bw)
             run.case("preempt|%s|%s|%d|%d" % (j["name"], j["bn"], j["wal"], r["k"]), nontrivial=True,
                      sample={"A": j["a"][:60], "B": j["b"][:40], "wal": j["wal"], "k": r["k"], "window": r.get("bwin")} if r["k"] == 3 else None)
@@ -382,7 +429,8 @@ def stage(run, C07, work, nrandom, open_findings=False, workers=12, all_b=False)
             md = r.get("mapdiff")
             if why:
                 rep = dict(base, k=r["k"], window=r.get("bwin"), history=history_of(r), final=r["FINAL"], reopen=r["REOPEN"],
-                           mapping_vs_log=md, lock_events_of_A=" ".join(r["ev"])[:1500], **{"class": "atomicity"})
+                           mapping_vs_log=md, lock_events_of_A=" ".join(r["ev"])[:1500], held=r.get("held"),
+                           **{"class": "lock-leak" if r.get("held") else "atomicity"})
                 if run.violation(rep, "preemption explorer: A = `%s`, B = `%s`, WAL %s, B released at lock release %d of A (%s): %s"
                                  % (j["a"][:60], j["b"][:40], "on" if j["wal"] else "off", r["k"], r.get("bwin"), why)):
                     nviol += 1
